@@ -32,6 +32,20 @@ def inject_task(shard, first_tid, ntraces, seed, nvars_choices, steps, tmpdir,
                 samples=samples)
 
 
+def full_reorder_task(shard, first_tid, ntraces, seed):
+    from harness.drivers.xfer import _quiet_shutdown
+    _quiet_shutdown()        # the managers of these traces are corrupted on purpose of the finding
+    events = 0
+    with open(shard, 'w') as f:
+        for i in range(ntraces):
+            tr = inject.full_reorder_trace(first_tid + i, seed * 313 + first_tid + i)
+            f.write(tr.dumps() + '\n')
+            events += len(tr.events)
+            tr.ext.clear()
+    return dict(shard=shard, traces=ntraces, events=events,
+                fingerprints={('full_reorder', first_tid + i) for i in range(ntraces)}, samples=[])
+
+
 def failed_load_task(shard, first_tid, ntraces, seed, tmpdir):
     from harness.drivers import autoref_hist
     events = 0
@@ -77,7 +91,11 @@ def run(chk):
                seed=chk.seed, tmpdir=os.path.join(chk.dir, 'tmp')) for i in range(4)]
     fsh, _ = chk.generate(failed_load_task, fl)
     chk.own_clauses = tuple(chk.own_clauses) + ('decl.views',)
-    chk.validate('TraceBDD', 'TraceBDD.cfg', sh + fsh)
+    # max_nodes reached in the middle of a level swap (open known finding: the swap is not atomic)
+    fr = [dict(shard=chk.shard('fr_c17_%d' % i), first_tid=17900000 + i * 100, ntraces=chk.th(4, 40),
+               seed=chk.seed) for i in range(2)]
+    rsh, _ = chk.generate(full_reorder_task, fr)
+    chk.validate('TraceBDD', 'TraceBDD.cfg', sh + fsh + rsh)
     # file faults: a load that cannot open its file, then valid dump/load transfers
     # (the C12 driver); "subsequent operations behave normally" = the transfer is accepted
     from harness.drivers import xfer
